@@ -290,7 +290,7 @@ def handle : Handler := fun m j =>
     let scopes ← scopesOf j
     let res := do
       let x ← desAttr scopes a
-      let y ← serAttr scopes x
+      let y ← serAttr scopes none x
       pure (eAttr y)
     return answer res (wfAttr scopes a) (eAttr (normAttr a))
   | "serde.node" => some do
@@ -323,12 +323,25 @@ def handle : Handler := fun m j =>
         ("vi_nodup", Json.bool (nodupStr (valueInfo.map (·.name)))),
         ("vi_not_io", Json.bool (valueInfo.all (fun vi => !inputNames.contains vi.name && !outputNames.contains vi.name))),
         ("out_nodup", Json.bool (nodupStr outputNames)),
-        ("out_input_or_not_init", Json.bool (outputs.all (fun vo => if inputNames.contains vo.name then inputs.contains vo
-                                 else !initNames.contains vo.name))),
+        ("out_input_same", Json.bool (outputs.all (fun vo => !inputNames.contains vo.name || inputs.contains vo))),
         ("init_wf", Json.bool (initializers.all (fun t => wfTensor t && validDType t.dataType))),
         ("quant", Json.bool (nodupStr (quant.map (·.tensorName)) && quant.all (fun a => names.contains a.tensorName && !a.params.isEmpty && wfEntries a.params))),
         ("meta", Json.bool (wfEntries metadata)),
         ("nodes", Json.bool (wfNodes (names :: []) nodes))]
+  | "serde.wfmodel" => some do
+    -- development aid: the conjuncts of wfModel
+    let m ← dModel (← field j "x")
+    return obj [
+      ("graph", Json.bool (wfGraph [] m.graph)),
+      ("functions", Json.arr (m.functions.map (fun f => Json.bool (wfFunction m.irVersion f))).toArray),
+      ("meta", Json.bool (wfEntries m.metadata)),
+      ("opsets", Json.bool (nodupStr (m.opsetImport.map (·.domain)))),
+      ("keys", Json.bool (nodupKeys (m.functions.map fun f => (f.domain, f.name, f.overload)))),
+      ("dev", Json.bool (decide (m.irVersion ≥ 11) || (m.configuration.isEmpty && !graphHasDevCfg m.graph
+          && m.functions.all (fun f => !nodesHaveDevCfg f.nodes)))),
+      ("exp", Json.bool (decide (m.irVersion ≥ 10) ||
+        (scopeNames (m.graph.inputs.map (·.name)) (m.graph.initializers.map (·.name))
+            (nodeOutNames m.graph.nodes)).all (fun n => (parseExperimentalName n).isNone)))]
   | "serde.function" => some do
     let f ← dFunction (← field j "x")
     let res := do
